@@ -138,7 +138,8 @@ def main():
                      "in initial equations, if-branches and next to a loop; "
                      f"whole-matrix equations with both sides of the same shape: shapes {families.MAT_SHAPES[args.tier]} (square, 1x1, non-square, single row/column) "
                      f"x {len(families.MAT_RHS)} rhs forms {families.MAT_RHS} x positions {families.MAT_POSITIONS[args.tier]} "
-                     "(quick: every rhs form as a plain equation on the square shapes, every position on 2x2 representatives), plus rows / columns / "
+                     f"(quick: every rhs form as a plain equation on 2x2, {families.MAT_QUICK_3X3_RHS} on 3x3, {families.MAT_QUICK_NONSQUARE_RHS} on 2x3, "
+                     f"every position on 2x2 x {families.MAT_QUICK_POS_RHS}), plus rows / columns / "
                      "square sub-blocks of square matrices read, written, equated to each other and inside for-loops; "
                      f"functions with an if-statement: {len(families.FUN_IF_CONDS)} condition forms (relations combined with or/and/not so that the 0/1 encoding "
                      f"takes the values 0..4) x {len(families.FUN_IF_SHAPES)} statement shapes {families.FUN_IF_SHAPES} x call forms {families.FUN_IF_CALLS} "
